@@ -236,7 +236,9 @@ class SpecArray(object):
 
         # Interpolate at fmin
         if interpolate and fmin is not None:
-            if abs(float(other[attrs.FREQNAME][0]) - fmin) > tol:
+            if other[attrs.FREQNAME].size == 0 or (
+                abs(float(other[attrs.FREQNAME][0]) - fmin) > tol
+            ):
                 other = xr.concat([self._interp_freq(fmin), other], dim=attrs.FREQNAME)
 
         # Interpolate at fmax
